@@ -140,7 +140,21 @@ def check_two_peeks(ck, P, rid, accname="gvt_accumulator"):
                 ck.violated(rid, inst, c.where, "%s starts a round for control code(s) %s" % (g.name, sorted(sc[1]) if sc else "?"), cfg)
         elif g.name == "gvt_phase_run":
             paths, complete = Q.path_conditions(g, c)
-            idle = complete and paths and all(any(X.show(core) == "thread_phase" and t is False for core, t in conds) for conds in paths)
+            def _idle_test(core, t):
+                # `thread_phase` false, or a single-definition local holding `thread_phase` / `thread_phase != idle` false
+                c2 = X.strip(core)
+                if c2.k == "DeclRefExpr" and c2.d.get("sc") == "local":
+                    r2 = Q.resolve_local(g, c2)
+                    if r2 is not None:
+                        c2, neg2 = X.strip_bool(r2)
+                        if c2.k == "BinaryOperator" and c2.op in ("!=", "==") and "thread_phase" in X.show(c2) and "idle" in X.show(c2):
+                            busy = (c2.op == "!=") ^ neg2
+                            return t is (not busy)
+                        return X.show(c2) == "thread_phase" and (t is False) ^ neg2
+                if c2.k == "BinaryOperator" and c2.op in ("!=", "==") and "thread_phase" in X.show(c2) and "idle" in X.show(c2):
+                    return t is (c2.op == "==")
+                return X.show(core) == "thread_phase" and t is False
+            idle = complete and paths and all(any(_idle_test(core, t) for core, t in conds) for conds in paths)
             if idle:
                 ck.holds(rid, inst, c.where, "reached only while this thread's phase is idle", cfg)
             else:
